@@ -117,6 +117,11 @@ def check(df, date, stats=None):
         tb = [f for f in traceback.extract_tb(e.__traceback__) if "/_gettsim/" in f.filename]
         where = tb[-1].name if tb else "?"
         return [core.Failure(f"arithmetic:{type(e).__name__}:{where}", f"{date}: {type(e).__name__} in {where}: {e}")]
+    except Exception as e:  # noqa: BLE001
+        # missing keys / columns etc. are the subject of C08 (completeness), not of this property
+        if stats is not None:
+            stats.append(f"other-exception:{type(e).__name__}")
+        return []
     fails = []
     for n in nodes:
         col = res[n]
@@ -155,7 +160,10 @@ def oracle(pop, date, sh, ctx):
     stats = []
     fails = check(pop.df, date, stats)
     for s in stats:
-        sh.nontrivial.add(f"{ctx['iso']}|{s}")
+        if s.startswith("other-exception:"):
+            sh.classes[s + "(left to C08)"] += 1
+        else:
+            sh.nontrivial.add(f"{ctx['iso']}|{s}")
     df = pop.df
     if (df[["bruttolohn_m", "eink_selbst_m", "kapitaleink_brutto_m", "vermögen_bedürft"]].to_numpy() >= 1e5).any():
         sh.classes["has-amount>=1e5"] += 1
